@@ -49,6 +49,7 @@ static int under_root(const char *p) {
     if (!p) return 0;
     for (int i = 0; i < g_nroots; i++) {
         size_t l = strlen(g_roots[i]);
+        if (l == 1 && g_roots[i][0] == '/') return p[0] == '/'; /* root "/": every absolute path */
         if (strncmp(p, g_roots[i], l) == 0 && (p[l] == '/' || p[l] == 0)) return 1;
     }
     return 0;
